@@ -70,6 +70,18 @@ pub fn handmade() -> Vec<(&'static str, &'static str)> {
         ("undefined-device-among-defines", "#define D1\n#define D2\n#define D3\n#define D4\n#define D5\n.device ATnothing\n"),
         ("range-error-among-many", ".equ v1=1000\n.equ v2=2000\n.equ v3=3000\n.equ v4=4000\nldi r16, v1\nldi r17, v2\n"),
         ("undef-unknown-among-many", ".def b1=r1\n.def b2=r2\n.def b3=r3\n.def b4=r4\n.def b5=r5\n.undef b9\n"),
+        // one name in several spellings, defined more than once: which definition counts must not depend on the
+        // order in which a hash table happens to list its entries
+        ("macro-redefined-in-other-case", ".macro Delay\nnop\nnop\nnop\n.endm\n.macro DELAY\nnop\n.endm\nldi r16, 1\ndelay\nldi r17, 2\nDelay\nDELAY\ndeLay\n"),
+        ("macro-redefined-under-ifdef", "#define FAST\n.macro Wait\nnop\nnop\n.endm\n.ifdef FAST\n.macro WAIT\nret\n.endm\n.endif\nwait\nwAIT\n"),
+        ("macro-redefined-thrice", ".macro Put\n.dw 1\n.endm\n.macro PUT\n.dw 2\n.endm\n.macro pUt\n.dw 3\n.endm\nput\nPut\nPUT\npUt\npuT\n"),
+        ("macros-many-case-pairs", ".macro Aa\n.dw 1\n.endm\n.macro AA\n.dw 2\n.endm\n.macro Bb\n.dw 3\n.endm\n.macro BB\n.dw 4\n.endm\n.macro Cc\n.dw 5\n.endm\n.macro CC\n.dw 6\n.endm\n.macro Dd\n.dw 7\n.endm\n.macro DD\n.dw 8\n.endm\n.macro Ee\n.dw 9\n.endm\n.macro EE\n.dw 10\n.endm\naa\nbb\ncc\ndd\nee\naA\nbB\ncC\ndD\neE\n"),
+        ("set-in-several-spellings", ".set Cnt = 1\n.set CNT = 2\n.dw cnt\n.set cNt = cnT + 5\n.dw CnT\n"),
+        ("def-in-several-spellings", ".def Tmp = r16\n.undef TMP\n.def tMP = r17\ninc tmp\ninc TMP\n"),
+        ("define-in-several-spellings", "#define Flag\n#define FLAG\n.ifdef flag\n.dw 1\n.endif\n.ifdef Flag\n.dw 2\n.endif\n.ifdef FLAG\n.dw 3\n.endif\n"),
+        ("labels-differing-in-case-only", "Here: nop\nHERE: nop\nrjmp here\n"),
+        ("equs-differing-in-case-only", ".equ Val = 1\n.equ VAL = 2\n.dw val\n"),
+        ("equ-and-label-differing-in-case", ".equ Spot = 7\nnop\nSPOT: nop\n.dw spot\n"),
     ]
 }
 
@@ -371,6 +383,82 @@ fn schedules(ctx: &Ctx, progs: &[Prog], iso: &[u64], rounds: u64, yield_now: boo
     }
 }
 
+/// Builds that each do a lot of one kind of work (parameter substitution, expression evaluation, symbol and
+/// label handling, macro nesting), several at the same time: a budget, counter or table that is shared by the
+/// builds of a process instead of belonging to one build only shows when big builds overlap in time.
+fn heavy_concurrent(ctx: &Ctx, threads: usize, rounds: usize) {
+    let mut heavy: Vec<(&str, String)> = vec![];
+    {
+        let body: String = (0..512).map(|i| if i % 4 == 0 { format!("\t.dw @{} + {}\n", i % 10, i) } else { format!("\t; line {} of the body mentions @{}\n", i, i % 10) }).collect();
+        let args: Vec<String> = (0..31).map(|i| i.to_string()).collect();
+        let calls: String = (0..600).map(|_| format!("\theavy {}\n", args.join(", "))).collect();
+        heavy.push(("substitutions", format!(".macro heavy\n{}.endm\n{}", body, calls)));
+    }
+    heavy.push(("evaluation-steps", format!("{}{}", fw::equ_ladder(18, "ldi r16, low(a18)"), "\t.dd a17, a16, a17\n")));
+    {
+        let mut s = String::new();
+        for i in 0..20_000 {
+            s.push_str(&format!("lbl_{}: .dw lbl_{} + {}\n.equ eq_{} = lbl_{} ^ {}\n", i, (i * 7919) % 20_000, i % 9, i, i / 2, i));
+        }
+        heavy.push(("symbols", s));
+    }
+    {
+        let mut s = String::new();
+        for d in 0..100 {
+            s.push_str(&format!(".macro nest_{}\n\t.dw @0 + {}\n{}.endm\n", d, d, if d == 0 { String::new() } else if d % 16 == 0 { format!("\tnest_{} @0 + 1\n\tnest_{} @0 - 1\n", d - 1, d / 2) } else { format!("\tnest_{} @0 + 1\n", d - 1) }));
+        }
+        s.push_str("\tnest_99 1000\n\tnest_60 7\n");
+        heavy.push(("macro-nesting", s));
+    }
+    let alone: Vec<(u64, &'static str, f64)> = heavy
+        .iter()
+        .map(|(_, t)| {
+            let t0 = std::time::Instant::now();
+            let o = fw::build_str(t);
+            ctx.eval(1);
+            (fw::hash_str(&format!("{:?}", o.brief())), o.kind(), t0.elapsed().as_secs_f64())
+        })
+        .collect();
+    ctx.put("heavy_programs_alone", json!(heavy.iter().zip(&alone).map(|((n, t), (_, k, secs))| json!({"name": n, "bytes": t.len(), "outcome": k, "seconds": (secs * 100.0).round() / 100.0})).collect::<Vec<_>>()));
+    if let Some(((n, _), _)) = heavy.iter().zip(&alone).find(|(_, (_, k, _))| *k != "ok") {
+        ctx.inconclusive(format!("heavy program {} does not build on its own", n));
+        return;
+    }
+    let mut overlapping = 0u64;
+    for round in 0..rounds {
+        let barrier = Barrier::new(threads);
+        let bad: Mutex<Vec<(usize, String)>> = Mutex::new(vec![]);
+        std::thread::scope(|sc| {
+            for t in 0..threads {
+                let (barrier, bad, heavy, alone) = (&barrier, &bad, &heavy, &alone);
+                sc.spawn(move || {
+                    barrier.wait();
+                    // all threads start with the same kind of work (the overlap that counts), then rotate
+                    for k in 0..heavy.len() {
+                        let i = if k == 0 { round % heavy.len() } else { (round + k + t) % heavy.len() };
+                        let o = fw::build_str(&heavy[i].1);
+                        if fw::hash_str(&format!("{:?}", o.brief())) != alone[i].0 {
+                            bad.lock().unwrap().push((i, fw::clip(&format!("{:?}", o.brief()), 200)));
+                        }
+                    }
+                });
+            }
+        });
+        overlapping += (threads * heavy.len()) as u64;
+        ctx.eval((threads * heavy.len()) as u64);
+        ctx.distinct(fw::mix64(0xC17_EA, round as u64 * 64 + threads as u64));
+        if let Some((i, what)) = bad.into_inner().unwrap().into_iter().next() {
+            ctx.violation(
+                format!("det/heavy-concurrent/{}", heavy[i].0),
+                format!("{} big builds at the same time: a `{}` build differs from the same build on its own: {}", threads, heavy[i].0, what),
+                json!({"heavy_concurrent": true, "threads": threads, "program": heavy[i].0}),
+            );
+            break;
+        }
+    }
+    ctx.put("heavy_concurrent_builds", json!(overlapping));
+}
+
 pub fn run(ctx: &Ctx) -> i32 {
     let scratch = scratch_dir();
     let _ = std::fs::remove_dir_all(&scratch);
@@ -392,6 +480,9 @@ pub fn run(ctx: &Ctx) -> i32 {
     histories(ctx, &progs, &iso, ctx.tier.pick(200u64, 20_000u64));
     schedules(ctx, &progs, &iso, ctx.tier.pick(40u64, 1_000u64), false);
     schedules(ctx, &progs, &iso, ctx.tier.pick(20u64, 1_000u64), true);
+    if !cfg!(miri) {
+        heavy_concurrent(ctx, ctx.tier.pick(4usize, 16usize).min(fw::threads().max(2)), ctx.tier.pick(2usize, 12usize));
+    }
     // one sample history for the evidence
     {
         let mut rng = Rng::for_case(ctx.seed, 0xC17_A, 0);
@@ -403,7 +494,7 @@ pub fn run(ctx: &Ctx) -> i32 {
     let _ = std::fs::remove_dir_all(&scratch);
     fw::finish(
         ctx,
-        "pool of ~67 programs (32 hand-made ones whose symbols, macros, #defines, aliases, devices and messages collide by name across programs, valid and failing; 30 generated ones; 5 build_file programs sharing an include directory); isolated results from 8 (thorough 64) fresh processes per program (also decides hash-order independence); 200 (20000) random sequential histories of 20-100 builds; 60 (2000) concurrent rounds of 2-16 threads x 10-50 builds released by a barrier, half of them with yields injected at the build and line hooks; BUILD-hook invariant (empty tables, default device) at every build start; DEVICES fingerprint; Miri leg; distinct_nontrivial = distinct histories and rounds",
+        "pool of ~67 programs (32 hand-made ones whose symbols, macros, #defines, aliases, devices and messages collide by name across programs, valid and failing; 30 generated ones; 5 build_file programs sharing an include directory); isolated results from 8 (thorough 64) fresh processes per program (also decides hash-order independence); 200 (20000) random sequential histories of 20-100 builds; 60 (2000) concurrent rounds of 2-16 threads x 10-50 builds released by a barrier, half of them with yields injected at the build and line hooks; 2 (12) rounds of 4 (16) threads building four big programs at the same time (600 calls of a 512-line macro with 31 arguments; an 18-rung .equ doubling ladder; 20000 labels and .equs referring to each other; 100 macros nested to depth 100) against the same builds done alone; BUILD-hook invariant (empty tables, default device) at every build start; DEVICES fingerprint; Miri leg; distinct_nontrivial = distinct histories and rounds",
         &[
             "builds share only the immutable DEVICES table; the monitors aim at making introduced sharing visible, not at enumerating schedules",
             "fingerprint = hash of the complete BuildResult or error text",
